@@ -162,7 +162,7 @@ def jobs(tier):
     B(lambda: L.AxSharedInst(False, 3, 2, 16, dw=64))
     B(lambda: L.AxSharedInst(False, 2, 2, 16, dw=32, kind="xbar"), cycles=1500 if quick else 15000)
     B(lambda: L.AxSharedInst(True, 2, 2, 16, dw=32, kind="xbar"), cycles=1500 if quick else 15000)
-    sc = dict(cycles=2000 if quick else 20000)
+    sc = dict(cycles=2000 if quick else 10000)
     B(lambda: L.WbSharedInst(2, 2, 16, dw=16, sh=4, soc_init=0), **sc)
     B(lambda: L.WbSharedInst(3, 2, 7, dw=8, sh=4, soc_init=2 ** 32 - 20), **sc)
     B(lambda: L.AxSharedInst(True, 2, 2, 7, dw=16, soc_init=0), **sc)
